@@ -29,6 +29,9 @@ func ConvertMetadataToProtoHeader(
 ) []*conformancev1.Header {
 	headerInfo := make([]*conformancev1.Header, 0, len(src))
 	for key, value := range src {
+		// The header gets a value list of its own and src is left as it is:
+		// converting the same metadata again must not encode it again.
+		value = append([]string(nil), value...)
 		if strings.HasSuffix(key, "-bin") {
 			// binary headers must be base64-encoded
 			for i := range value {
